@@ -18,6 +18,7 @@ import TdVerif.Lemmas.C02Basic
 import TdVerif.Lemmas.C02Coord
 import TdVerif.Lemmas.C02Meta
 import TdVerif.Lemmas.C02Tree
+import TdVerif.Lemmas.C02Expand
 
 namespace TdVerif.Props.C02
 open TdVerif.C02
@@ -335,6 +336,17 @@ theorem view_batch_eq_torch_counterexample :
   refine ⟨viewMeta_shape _ _ _ _, ?_⟩
   decide
 
+/- FULL STATEMENT (false of the code, see `unflatten_batch_eq_torch_counterexample`): the same equation without `hne`/`hprod`. -/
+theorem unflatten_batch_eq_torch_partial (d : Int) (sz : Shape) (bs : Shape) (names : Names) (i : Nat)
+    (hd : normDim bs.length d = some i) (hne : sz ≠ []) (hprod : prod sz = bs.getD i 0) :
+    resShape bs (unflattenMeta d (natsToInts sz) bs names) = torchShapeOf (Torch.unflatten d (natsToInts sz) (proxy bs)) := by
+  rw [unflattenMeta_shape, hd]
+  obtain ⟨_, hi⟩ := normDim_some hd
+  have h0 : bs.length ≠ 0 := by omega
+  have hw : wrapDim bs.length d = some i := by simp [wrapDim, h0, hd]
+  have hne' : natsToInts sz ≠ [] := by simpa [natsToInts] using hne
+  simp only [Torch.unflatten, proxy, T.rank, hw, h0, if_false, hne', inferSize_ofNats sz _ hprod, torchShapeOf, T.unflatten]
+
 /-- the same for unflatten: `TensorDict({}, [2,3]).unflatten(1, (2,2))` is accepted with batch size [2,2,2] -/
 theorem unflatten_batch_eq_torch_counterexample :
     resShape [2, 3] (unflattenMeta 1 (natsToInts [2, 2]) [2, 3] none) = some [2, 2, 2] ∧
@@ -526,6 +538,86 @@ theorem permute_batch_eq_torch (dims : List Int) (bs : Shape) (names : Names) :
       unfold permuteMeta resShape
       simp only [List.length_map, hlen]
       split <;> simp_all
+
+
+/-- expand: the batch size the code computes is the size torch gives, and the code rejects exactly the sizes torch rejects
+(too few entries, negative entries other than `-1` on an existing dim, incompatible non-singleton dims), for every batch shape -/
+theorem expand_batch_eq_torch (shape : List Int) (bs : Shape) (names : Names) :
+    resShape bs (expandMeta shape bs names) = torchShapeOf (Torch.expand shape (proxy bs)) := by
+  by_cases hlen : shape.length < bs.length
+  · -- too few sizes: both reject
+    have h1 : expandMeta shape bs names = .error .runtime := by
+      unfold expandMeta; simp [hlen, bind, Except.bind, throw, throwThe, MonadExceptOf.throw]
+    have h2 : expandSizes bs shape = .error .runtime := by unfold expandSizes; simp [hlen]
+    simp [h1, Torch.expand, proxy, h2, resShape, torchShapeOf, Except.map]
+  · have hle : bs.length ≤ shape.length := by omega
+    -- both sides are determined by the same per-position rule
+    have hT : ∀ sh, expandSizes bs shape = .ok sh ↔
+        (sh.length = shape.length ∧ ∀ i, i < shape.length → expandRule bs shape i = some (sh.getD i 0)) :=
+      expandSizes_eq_rule bs shape hle
+    have hM : ∀ sh, (∃ nm call, expandMeta shape bs names = .ok (some (sh, nm, call))) ↔
+        (sh.length = shape.length ∧ ∀ i, i < shape.length → expandRule bs shape i = some (sh.getD i 0)) := by
+      intro sh
+      unfold expandMeta
+      simp only [hlen, if_false, bind, Except.bind, pure, Except.pure, throw, throwThe, MonadExceptOf.throw]
+      constructor
+      · rintro ⟨nm, call, h⟩
+        cases hr : expandResolve bs shape with
+        | error e => simp [hr] at h
+        | ok sh0 =>
+          simp only [hr] at h
+          by_cases hc : (bs.zip (sh0.drop (sh0.length - bs.length))).any (fun x => decide (x.1 ≠ 1 ∧ x.2 ≠ x.1)) = true
+          · rw [if_pos hc] at h; cases h
+          · rw [if_neg hc] at h
+            simp only [Except.ok.injEq, Option.some.injEq, Prod.mk.injEq] at h
+            obtain ⟨rfl, _, _⟩ := h
+            obtain ⟨hl0, hres⟩ := (expandResolve_eq_rule bs shape sh0).1 hr
+            have hchk := (expand_check_iff bs sh0 (by omega)).1 (by simpa using hc)
+            refine ⟨hl0, fun i hi => ?_⟩
+            apply (rule_combine bs shape i _).1
+            refine ⟨hres i hi, fun hge => ?_⟩
+            have := hchk i (by omega) (by omega)
+            rw [hl0] at this
+            exact this
+      · rintro ⟨hl0, hrule⟩
+        have hres : expandResolve bs shape = .ok sh := (expandResolve_eq_rule bs shape sh).2
+          ⟨hl0, fun i hi => ((rule_combine bs shape i _).2 (hrule i hi)).1⟩
+        have hchk : (bs.zip (sh.drop (sh.length - bs.length))).any (fun x => decide (x.1 ≠ 1 ∧ x.2 ≠ x.1)) = false := by
+          apply (expand_check_iff bs sh (by omega)).2
+          intro i hi hge
+          have := ((rule_combine bs shape i _).2 (hrule i (by omega))).2 (by omega)
+          rw [hl0]; exact this
+        simp only [hres]
+        rw [if_neg (by rw [hchk]; simp)]
+        exact ⟨_, _, rfl⟩
+    -- case on torch's answer
+    cases ht : expandSizes bs shape with
+    | ok sh =>
+      obtain ⟨nm, call, hm⟩ := (hM sh).2 ((hT sh).1 ht)
+      simp [hm, Torch.expand, proxy, ht, resShape, torchShapeOf, Except.map, T.expand]
+    | error e =>
+      have hno : ∀ sh nm call, expandMeta shape bs names ≠ .ok (some (sh, nm, call)) := by
+        intro sh nm call hm
+        have := (hT sh).2 ((hM sh).1 ⟨nm, call, hm⟩)
+        rw [ht] at this; cases this
+      have hres : resShape bs (expandMeta shape bs names) = none := by
+        cases hm : expandMeta shape bs names with
+        | error e => rfl
+        | ok o =>
+          cases o with
+          | none =>
+            -- expandMeta never returns `self`
+            unfold expandMeta at hm
+            simp only [hlen, if_false, bind, Except.bind, pure, Except.pure, throw, throwThe, MonadExceptOf.throw] at hm
+            cases hr : expandResolve bs shape with
+            | error e => simp [hr] at hm
+            | ok sh0 =>
+              simp only [hr] at hm
+              split at hm <;> simp at hm
+          | some v =>
+            obtain ⟨sh, nm, call⟩ := v
+            exact absurd hm (hno sh nm call)
+      simp [hres, Torch.expand, proxy, ht, torchShapeOf, Except.map]
 
 
 /-! ## names travel with their dims -/
